@@ -73,8 +73,8 @@ def afterOf : PC M → Option After
 structure Inv (R : List σ) (s : St M σ) : Prop where
   /-- exclusive ownership: no slice is in two places -/
   nodup : (tokens s).Nodup
-  /-- conservation: pool + queue + held = N -/
-  count : (tokens s).length = s.N
+  /-- conservation: pool + queue + held = capacity of the pool channel -/
+  count : (tokens s).length = s.P
   fresh : ∀ t ∈ tokens s, t < s.nextId
   /-- results so far ++ what the specification still produces = the specification's results -/
   seq : s.results ++ seqRest proc init s = R
@@ -83,9 +83,10 @@ structure Inv (R : List σ) (s : St M σ) : Prop where
   doneIff : s.done = true ↔ s.c = .exited
   exited : s.c = .exited → s.closed = true ∧ s.queue = []
   sendMem : ∀ m t, s.p = .onSend m t → s.mem t = some m
-  posN : 1 ≤ s.N
-  posScript : ∀ n, Cmd.reset n ∈ s.script → 1 ≤ n
-  posAfter : ∀ n, afterOf s.p = some (.reset n) → 1 ≤ n
+  /-- `cap(l.poolc) = max(channelBuffer, 1)`: at least one slice circulates, whatever the buffer size -/
+  capP : s.P = poolSize s.N
+  /-- `mesgc` never holds more than its capacity (nothing at all when it is unbuffered) -/
+  qcap : s.queue.length ≤ s.N
 
 theorem foldl_update_notin (mem : Nat → Option M) (t : Nat) (v : Option M) (L : List Nat) (h : t ∉ L) (f0 : σ) :
     L.foldl (fun f x => procO proc f (update mem t v x)) f0 = L.foldl (fun f x => procO proc f (mem x)) f0 := by
@@ -97,9 +98,9 @@ theorem foldl_update_notin (mem : Nat → Option M) (t : Nat) (v : Option M) (L 
     simp only [List.foldl_cons, update, ha, if_false]
     exact ih hL _
 
-theorem inv_init (N : Nat) (script : List (Cmd M)) (hN : 1 ≤ N) (hs : ∀ n, Cmd.reset n ∈ script → 1 ≤ n) :
+theorem inv_init (N : Nat) (script : List (Cmd M)) :
     Inv proc init (seqRun proc init true init script) (initSt init N script) := by
-  refine ⟨?_, ?_, ?_, ?_, ?_, ?_, ?_, ?_, ?_, hN, hs, ?_⟩
+  refine ⟨?_, ?_, ?_, ?_, ?_, ?_, ?_, ?_, ?_, rfl, ?_⟩
   · simp [tokens, initSt, holdP, holdC, List.nodup_range]
   · simp [tokens, initSt, holdP, holdC]
   · intro t ht; simpa [tokens, initSt, holdP, holdC] using ht
@@ -109,7 +110,7 @@ theorem inv_init (N : Nat) (script : List (Cmd M)) (hN : 1 ≤ N) (hs : ∀ n, C
   · simp [initSt]
   · simp [initSt]
   · intro m t h; simp [initSt] at h
-  · intro n h; simp [initSt, afterOf] at h
+  · simp [initSt]
 
 
 
@@ -120,7 +121,7 @@ theorem seqRest_congr {s s' : St M σ} (hv : vfile proc s' = vfile proc s) (hp :
 
 theorem inv_stepC {R : List σ} {s s' : St M σ} (inv : Inv proc init R s) (h : stepC proc s = some s') :
     Inv proc init R s' := by
-  obtain ⟨hnd, hcnt, hfr, hseq, hcl, hina, hdone, hex, hsm, hN, hps, hpa⟩ := inv
+  obtain ⟨hnd, hcnt, hfr, hseq, hcl, hina, hdone, hex, hsm, hP, hqc⟩ := inv
   unfold stepC at h
   split at h
   · -- recv
@@ -133,11 +134,12 @@ theorem inv_stepC {R : List σ} {s s' : St M σ} (inv : Inv proc init R s) (h : 
       have hv : vfile proc ({ s with queue := q, c := .proc t } : St M σ) = vfile proc s := by
         simp [vfile, pendC, hc, hq]
       refine ⟨hperm.nodup_iff.mpr hnd, by rw [hperm.length_eq]; exact hcnt, fun x hx => hfr x (hperm.mem_iff.mp hx), ?_,
-        hcl, ?_, ?_, ?_, hsm, hN, hps, hpa⟩
+        hcl, ?_, ?_, ?_, hsm, hP, ?_⟩
       · rw [seqRest_congr proc init hv rfl rfl rfl]; exact hseq
       · intro ha; have := hina ha; simp [hc] at this
       · simp [hc] at hdone ⊢; exact hdone
       · intro h; cases h
+      · rw [hq] at hqc; simp at hqc ⊢; omega
     · rename_i hq
       split at h
       · rename_i hclosed
@@ -146,7 +148,7 @@ theorem inv_stepC {R : List σ} {s s' : St M σ} (inv : Inv proc init R s) (h : 
           simp [tokens, holdC, hc]
         have hv : vfile proc ({ s with done := true, c := .exited } : St M σ) = vfile proc s := by
           simp [vfile, pendC, hc]
-        refine ⟨by rw [htok]; exact hnd, by rw [htok]; exact hcnt, by rw [htok]; exact hfr, ?_, hcl, ?_, ?_, ?_, hsm, hN, hps, hpa⟩
+        refine ⟨by rw [htok]; exact hnd, by rw [htok]; exact hcnt, by rw [htok]; exact hfr, ?_, hcl, ?_, ?_, ?_, hsm, hP, hqc⟩
         · rw [seqRest_congr proc init hv rfl rfl rfl]; exact hseq
         · intro ha
           exact ⟨(hina ha).1, rfl⟩
@@ -160,7 +162,7 @@ theorem inv_stepC {R : List σ} {s s' : St M σ} (inv : Inv proc init R s) (h : 
       simp [tokens, holdC, hc]
     have hv : vfile proc ({ s with file := procO proc s.file (s.mem t), c := .ret t } : St M σ) = vfile proc s := by
       simp [vfile, pendC, hc]
-    refine ⟨by rw [htok]; exact hnd, by rw [htok]; exact hcnt, by rw [htok]; exact hfr, ?_, hcl, ?_, ?_, ?_, hsm, hN, hps, hpa⟩
+    refine ⟨by rw [htok]; exact hnd, by rw [htok]; exact hcnt, by rw [htok]; exact hfr, ?_, hcl, ?_, ?_, ?_, hsm, hP, hqc⟩
     · rw [seqRest_congr proc init hv rfl rfl rfl]; exact hseq
     · intro ha; have := hina ha; simp [hc] at this
     · simp [hc] at hdone ⊢; exact hdone
@@ -175,7 +177,7 @@ theorem inv_stepC {R : List σ} {s s' : St M σ} (inv : Inv proc init R s) (h : 
       have hv : vfile proc ({ s with pool := s.pool ++ [t], c := .recv } : St M σ) = vfile proc s := by
         simp [vfile, pendC, hc]
       refine ⟨hperm.nodup_iff.mpr hnd, by rw [hperm.length_eq]; exact hcnt, fun x hx => hfr x (hperm.mem_iff.mp hx), ?_,
-        hcl, ?_, ?_, ?_, hsm, hN, hps, hpa⟩
+        hcl, ?_, ?_, ?_, hsm, hP, hqc⟩
       · rw [seqRest_congr proc init hv rfl rfl rfl]; exact hseq
       · intro ha; have := hina ha; simp [hc] at this
       · simp [hc] at hdone ⊢; exact hdone
@@ -186,14 +188,14 @@ theorem inv_stepC {R : List σ} {s s' : St M σ} (inv : Inv proc init R s) (h : 
 
 
 theorem inv_finishClose {R : List σ} (a : After) (s : St M σ)
-    (hnd : s.pool.Nodup) (hcnt : s.pool.length = s.N) (hfr : ∀ t ∈ s.pool, t < s.nextId)
+    (hnd : s.pool.Nodup) (hcnt : s.pool.length = s.P) (hfr : ∀ t ∈ s.pool, t < s.nextId)
     (hc : s.c = .exited) (hq : s.queue = []) (hclosed : s.closed = true) (hdone : s.done = true)
     (hseq : s.results ++ afterSeq proc init a s.file s.script = R)
-    (hN : 1 ≤ s.N) (hps : ∀ n, Cmd.reset n ∈ s.script → 1 ≤ n) (hpa : ∀ n, a = .reset n → 1 ≤ n) :
+    (hP : s.P = poolSize s.N) :
     Inv proc init R (finishClose init a s) := by
   cases a with
   | file =>
-    refine ⟨?_, ?_, ?_, ?_, ?_, ?_, ?_, ?_, ?_, hN, hps, ?_⟩
+    refine ⟨?_, ?_, ?_, ?_, ?_, ?_, ?_, ?_, ?_, hP, ?_⟩
     · simpa [finishClose, tokens, holdP, holdC, hc, hq] using hnd
     · simpa [finishClose, tokens, holdP, holdC, hc, hq] using hcnt
     · simpa [finishClose, tokens, holdP, holdC, hc, hq] using hfr
@@ -203,9 +205,9 @@ theorem inv_finishClose {R : List σ} (a : After) (s : St M σ)
     · simp [finishClose, hc, hdone]
     · simp [finishClose, hclosed, hq]
     · intro m t h; simp [finishClose] at h
-    · intro n h; simp [finishClose, afterOf] at h
+    · simp [finishClose, hq]
   | close =>
-    refine ⟨?_, ?_, ?_, ?_, ?_, ?_, ?_, ?_, ?_, hN, hps, ?_⟩
+    refine ⟨?_, ?_, ?_, ?_, ?_, ?_, ?_, ?_, ?_, hP, ?_⟩
     · simpa [finishClose, tokens, holdP, holdC, hc, hq] using hnd
     · simpa [finishClose, tokens, holdP, holdC, hc, hq] using hcnt
     · simpa [finishClose, tokens, holdP, holdC, hc, hq] using hfr
@@ -215,11 +217,10 @@ theorem inv_finishClose {R : List σ} (a : After) (s : St M σ)
     · simp [finishClose, hc, hdone]
     · simp [finishClose, hclosed, hq]
     · intro m t h; simp [finishClose] at h
-    · intro n h; simp [finishClose, afterOf] at h
+    · simp [finishClose, hq]
   | reset n =>
-    have hn : 1 ≤ n := hpa n rfl
-    by_cases hnN : n = s.N
-    · refine ⟨?_, ?_, ?_, ?_, ?_, ?_, ?_, ?_, ?_, ?_, ?_, ?_⟩
+    by_cases hnN : poolSize n = s.P
+    · refine ⟨?_, ?_, ?_, ?_, ?_, ?_, ?_, ?_, ?_, ?_, ?_⟩
       · simpa [finishClose, respawn, resize, hnN, tokens, holdP, holdC] using hnd
       · simpa [finishClose, respawn, resize, hnN, tokens, holdP, holdC] using hcnt
       · simpa [finishClose, respawn, resize, hnN, tokens, holdP, holdC] using hfr
@@ -229,10 +230,9 @@ theorem inv_finishClose {R : List σ} (a : After) (s : St M σ)
       · simp [finishClose, respawn, resize, hnN]
       · simp [finishClose, respawn, resize, hnN]
       · intro m t h; simp [finishClose, respawn, resize, hnN] at h
-      · simpa [finishClose, respawn, resize, hnN] using hN
-      · simpa [finishClose, respawn, resize, hnN] using hps
-      · intro k h; simp [finishClose, respawn, resize, hnN, afterOf] at h
-    · refine ⟨?_, ?_, ?_, ?_, ?_, ?_, ?_, ?_, ?_, ?_, ?_, ?_⟩
+      · simp [finishClose, respawn, resize, hnN]
+      · simp [finishClose, respawn, resize, hnN]
+    · refine ⟨?_, ?_, ?_, ?_, ?_, ?_, ?_, ?_, ?_, ?_, ?_⟩
       · simp only [finishClose, respawn, resize, hnN, if_false, tokens, holdP, holdC, List.append_nil]
         rw [List.nodup_append]
         refine ⟨hnd.sublist (List.take_sublist _ _), List.nodup_range', ?_⟩
@@ -254,28 +254,25 @@ theorem inv_finishClose {R : List σ} (a : After) (s : St M σ)
       · simp [finishClose, respawn, resize, hnN]
       · simp [finishClose, respawn, resize, hnN]
       · intro m t h; simp [finishClose, respawn, resize, hnN] at h
-      · simpa [finishClose, respawn, resize, hnN] using hn
-      · simpa [finishClose, respawn, resize, hnN] using hps
-      · intro k h; simp [finishClose, respawn, resize, hnN, afterOf] at h
+      · simp [finishClose, respawn, resize, hnN]
+      · simp [finishClose, respawn, resize, hnN]
 
 
 
 
 theorem inv_startClose {R : List σ} (a : After) (s : St M σ) (c : Cmd M) (cs : List (Cmd M))
     (inv : Inv proc init R s) (hp : s.p = .idle) (hs : s.script = c :: cs)
-    (hcmd : ∀ act V, seqRun proc init act V (c :: cs) = afterSeq proc init a V cs)
-    (hpa : ∀ n, a = .reset n → 1 ≤ n) :
+    (hcmd : ∀ act V, seqRun proc init act V (c :: cs) = afterSeq proc init a V cs) :
     Inv proc init R (startClose init a { s with script := cs }) := by
-  obtain ⟨hnd, hcnt, hfr, hseq, hcl, hina, hdone, hex, hsm, hN, hps, _⟩ := inv
-  have hps' : ∀ n, Cmd.reset n ∈ cs → 1 ≤ n := fun n h => hps n (by rw [hs]; exact List.mem_cons_of_mem _ h)
+  obtain ⟨hnd, hcnt, hfr, hseq, hcl, hina, hdone, hex, hsm, hP, hqc⟩ := inv
   by_cases hact : s.active = true
-  · have hN0 : ¬ s.N = 0 := by omega
+  · have hN0 : ¬ s.P = 0 := by rw [hP]; unfold poolSize; omega
     have hclosedF : s.closed = false := by
       cases hc : s.closed with
       | false => rfl
       | true => have := hcl.mp hc; simp [hp, isClosing, hact] at this
     simp only [startClose, hact, if_true, hN0, if_false]
-    refine ⟨?_, ?_, ?_, ?_, ?_, ?_, hdone, ?_, ?_, hN, hps', ?_⟩
+    refine ⟨?_, ?_, ?_, ?_, ?_, ?_, hdone, ?_, ?_, hP, hqc⟩
     · simpa [tokens, holdP, hp] using hnd
     · simpa [tokens, holdP, hp] using hcnt
     · simpa [tokens, holdP, hp] using hfr
@@ -286,7 +283,6 @@ theorem inv_startClose {R : List σ} (a : After) (s : St M σ) (c : Cmd M) (cs :
     · intro h; simp at h
     · intro h; exact ⟨rfl, (hex h).2⟩
     · intro m t h; cases h
-    · intro n h; simp only [afterOf, Option.some.injEq] at h; exact hpa n h
   · have hact' : s.active = false := by simpa using hact
     obtain ⟨_, hc⟩ := hina hact'
     obtain ⟨hclosed, hq⟩ := hex hc
@@ -302,9 +298,7 @@ theorem inv_startClose {R : List σ} (a : After) (s : St M σ) (c : Cmd M) (cs :
     · simp only [seqRest, hp, hs, hact'] at hseq
       rw [hcmd] at hseq
       simpa [vfile, pendP, pendC, hp, hc, hq] using hseq
-    · exact hN
-    · exact hps'
-    · exact hpa
+    · exact hP
 
 
 
@@ -312,7 +306,7 @@ theorem inv_startClose {R : List σ} (a : After) (s : St M σ) (c : Cmd M) (cs :
 theorem inv_stepP {R : List σ} {s s' : St M σ} (inv : Inv proc init R s) (h : stepP init s = some s') :
     Inv proc init R s' := by
   have inv0 := inv
-  obtain ⟨hnd, hcnt, hfr, hseq, hcl, hina, hdone, hex, hsm, hN, hps, hpa⟩ := inv
+  obtain ⟨hnd, hcnt, hfr, hseq, hcl, hina, hdone, hex, hsm, hP, hqc⟩ := inv
   unfold stepP at h
   split at h
   · -- idle
@@ -321,7 +315,7 @@ theorem inv_stepP {R : List σ} {s s' : St M σ} (inv : Inv proc init R s) (h : 
     · -- script = []
       rename_i hs
       injection h with h; subst h
-      refine ⟨?_, ?_, ?_, ?_, ?_, ?_, hdone, hex, ?_, hN, hps, ?_⟩
+      refine ⟨?_, ?_, ?_, ?_, ?_, ?_, hdone, hex, ?_, hP, hqc⟩
       · simpa [tokens, holdP, hp] using hnd
       · simpa [tokens, holdP, hp] using hcnt
       · simpa [tokens, holdP, hp] using hfr
@@ -330,14 +324,12 @@ theorem inv_stepP {R : List σ} {s s' : St M σ} (inv : Inv proc init R s) (h : 
       · simpa [isClosing, hp] using hcl
       · intro ha; exact ⟨rfl, (hina ha).2⟩
       · intro m t h; cases h
-      · intro n h; cases h
     · -- onMesg m :: cs
       rename_i m cs hs
       injection h with h; subst h
-      have hps' : ∀ n, Cmd.reset n ∈ cs → 1 ≤ n := fun n h => hps n (by rw [hs]; exact List.mem_cons_of_mem _ h)
       by_cases hact : s.active = true
       · simp only [hact, if_true]
-        refine ⟨?_, ?_, ?_, ?_, ?_, ?_, hdone, hex, ?_, hN, hps', ?_⟩
+        refine ⟨?_, ?_, ?_, ?_, ?_, ?_, hdone, hex, ?_, hP, hqc⟩
         · simpa [tokens, holdP, hp] using hnd
         · simpa [tokens, holdP, hp] using hcnt
         · simpa [tokens, holdP, hp] using hfr
@@ -346,12 +338,11 @@ theorem inv_stepP {R : List σ} {s s' : St M σ} (inv : Inv proc init R s) (h : 
         · simpa [isClosing, hp, hact] using hcl
         · intro ha; simp at ha
         · intro m' t h; cases h
-        · intro n h; cases h
       · have hact' : s.active = false := by simpa using hact
         obtain ⟨_, hc⟩ := hina hact'
         obtain ⟨hclosed, hq⟩ := hex hc
         simp only [hact', Bool.false_eq_true, if_false]
-        refine ⟨?_, ?_, ?_, ?_, ?_, ?_, ?_, ?_, ?_, hN, hps', ?_⟩
+        refine ⟨?_, ?_, ?_, ?_, ?_, ?_, ?_, ?_, ?_, hP, ?_⟩
         · simpa [respawn, tokens, holdP, holdC, hp, hc, hq] using hnd
         · simpa [respawn, tokens, holdP, holdC, hp, hc, hq] using hcnt
         · simpa [respawn, tokens, holdP, holdC, hp, hc, hq] using hfr
@@ -362,18 +353,17 @@ theorem inv_stepP {R : List σ} {s s' : St M σ} (inv : Inv proc init R s) (h : 
         · simp [respawn]
         · intro h; simp [respawn] at h
         · intro m' t h; cases h
-        · intro n h; cases h
+        · simp [respawn]
     · -- file :: cs
       rename_i cs hs
       injection h with h; subst h
-      exact inv_startClose proc init .file s .file cs inv0 hp hs (fun _ _ => rfl) (fun n h => by cases h)
+      exact inv_startClose proc init .file s .file cs inv0 hp hs (fun _ _ => rfl)
     · rename_i cs hs
       injection h with h; subst h
-      exact inv_startClose proc init .close s .close cs inv0 hp hs (fun _ _ => rfl) (fun n h => by cases h)
+      exact inv_startClose proc init .close s .close cs inv0 hp hs (fun _ _ => rfl)
     · rename_i n cs hs
       injection h with h; subst h
       exact inv_startClose proc init (.reset n) s (.reset n) cs inv0 hp hs (fun _ _ => rfl)
-        (fun k h => by cases h; exact hps n (by rw [hs]; exact List.mem_cons_self))
   · -- onTake m
     rename_i m hp
     split at h
@@ -398,7 +388,7 @@ theorem inv_stepP {R : List σ} {s s' : St M σ} (inv : Inv proc init R s) (h : 
           simp at hnd'
           grind
       refine ⟨hperm.nodup_iff.mpr hnd, by rw [hperm.length_eq]; exact hcnt, fun x hx => hfr x (hperm.mem_iff.mp hx), ?_,
-        ?_, ?_, hdone, hex, ?_, hN, hps, ?_⟩
+        ?_, ?_, hdone, hex, ?_, hP, hqc⟩
       · simp only [seqRest, hp] at hseq
         simp only [seqRest, vfile, pendP]
         rw [foldl_update_notin proc s.mem t (some m) _ hnotin]
@@ -406,20 +396,19 @@ theorem inv_stepP {R : List σ} {s s' : St M σ} (inv : Inv proc init R s) (h : 
       · simpa [isClosing, hp] using hcl
       · intro ha; simp [hact] at ha
       · intro m' t' h; injection h with h1 h2; subst h1 h2; simp [update]
-      · intro n h; cases h
   · -- onSend m t
     rename_i m t hp
+    have hact : s.active = true := by
+      cases ha : s.active with
+      | true => rfl
+      | false => have := (hina ha).1; simp [hp, isIdleFin] at this
     split at h
     · rename_i hlen
       injection h with h; subst h
-      have hact : s.active = true := by
-        cases ha : s.active with
-        | true => rfl
-        | false => have := (hina ha).1; simp [hp, isIdleFin] at this
       have hperm : (tokens ({ s with queue := s.queue ++ [t], p := .idle } : St M σ)).Perm (tokens s) := by
         simp only [tokens, holdP, hp]; grind
       refine ⟨hperm.nodup_iff.mpr hnd, by rw [hperm.length_eq]; exact hcnt, fun x hx => hfr x (hperm.mem_iff.mp hx), ?_,
-        ?_, ?_, hdone, ?_, ?_, hN, hps, ?_⟩
+        ?_, ?_, hdone, ?_, ?_, hP, ?_⟩
       · have hm := hsm m t hp
         have e : vfile proc ({ s with queue := s.queue ++ [t], p := .idle } : St M σ) = vfile proc s := by
           simp only [vfile, pendP, hp, List.foldl_nil, List.foldl_cons, ← List.append_assoc, List.foldl_append, hm]
@@ -435,8 +424,32 @@ theorem inv_stepP {R : List σ} {s s' : St M σ} (inv : Inv proc init R s) (h : 
         have hcl' := hcl.mp this.1
         simp [hp, isClosing, hact] at hcl'
       · intro m' t' h; cases h
-      · intro n h; cases h
-    · cases h
+      · simp only [List.length_append, List.length_cons, List.length_nil]; omega
+    · split at h
+      · -- unbuffered channel: rendezvous with the receiving worker
+        rename_i hlen hsync
+        obtain ⟨hN0, hc⟩ := hsync
+        injection h with h; subst h
+        have hq : s.queue = [] := by
+          have := hqc; rw [hN0] at this
+          exact List.eq_nil_of_length_eq_zero (by omega)
+        have hperm : (tokens ({ s with p := .idle, c := .proc t } : St M σ)).Perm (tokens s) := by
+          simp only [tokens, holdP, holdC, hp, hc]; grind
+        refine ⟨hperm.nodup_iff.mpr hnd, by rw [hperm.length_eq]; exact hcnt, fun x hx => hfr x (hperm.mem_iff.mp hx), ?_,
+          ?_, ?_, ?_, ?_, ?_, hP, hqc⟩
+        · have hm := hsm m t hp
+          have e : vfile proc ({ s with p := .idle, c := .proc t } : St M σ) = vfile proc s := by
+            simp [vfile, pendP, pendC, hp, hc, hq, hm, procO]
+          simp only [seqRest, hp] at hseq
+          simp only [seqRest]
+          rw [e, hact]
+          exact hseq
+        · simpa [isClosing, hp] using hcl
+        · intro ha; simp [hact] at ha
+        · simp [hc] at hdone ⊢; exact hdone
+        · intro h; cases h
+        · intro m' t' h; cases h
+      · cases h
   · -- closing k a
     rename_i k a hp
     split at h
@@ -460,7 +473,7 @@ theorem inv_stepP {R : List σ} {s s' : St M σ} (inv : Inv proc init R s) (h : 
         · simp at hnd'
           grind
       refine ⟨hperm.nodup_iff.mpr hnd, by rw [hperm.length_eq]; exact hcnt, fun x hx => hfr x (hperm.mem_iff.mp hx), ?_,
-        ?_, ?_, hdone, hex, ?_, hN, hps, ?_⟩
+        ?_, ?_, hdone, hex, ?_, hP, hqc⟩
       · simp only [seqRest, hp] at hseq
         simp only [seqRest, vfile, pendP]
         rw [foldl_update_notin proc s.mem t none _ hnotin]
@@ -468,7 +481,6 @@ theorem inv_stepP {R : List σ} {s s' : St M σ} (inv : Inv proc init R s) (h : 
       · simpa [isClosing, hp] using hcl
       · intro ha; simp [hact] at ha
       · intro m' t' h; cases h
-      · intro n h; exact hpa n (by simpa [afterOf, hp] using h)
   · -- closingPut k t a
     rename_i k t a hp
     split at h
@@ -478,29 +490,27 @@ theorem inv_stepP {R : List σ} {s s' : St M σ} (inv : Inv proc init R s) (h : 
         cases ha : s.active with
         | true => rfl
         | false => have := (hina ha).1; simp [hp, isIdleFin] at this
-      by_cases hk : k + 1 < s.N
+      by_cases hk : k + 1 < s.P
       · simp only [hk, if_true]
         have hperm : (tokens ({ s with pool := s.pool ++ [t], p := .closing (k + 1) a } : St M σ)).Perm (tokens s) := by
           simp only [tokens, holdP, hp]; grind
         refine ⟨hperm.nodup_iff.mpr hnd, by rw [hperm.length_eq]; exact hcnt, fun x hx => hfr x (hperm.mem_iff.mp hx), ?_,
-          ?_, ?_, hdone, hex, ?_, hN, hps, ?_⟩
+          ?_, ?_, hdone, hex, ?_, hP, hqc⟩
         · simp only [seqRest, hp] at hseq
           simpa [seqRest, vfile, pendP, hp] using hseq
         · simpa [isClosing, hp] using hcl
         · intro ha; simp [hact] at ha
         · intro m' t' h; cases h
-        · intro n h; exact hpa n (by simpa [afterOf, hp] using h)
       · simp only [hk, if_false]
         have hperm : (tokens ({ s with pool := s.pool ++ [t], p := .closeWait a } : St M σ)).Perm (tokens s) := by
           simp only [tokens, holdP, hp]; grind
         refine ⟨hperm.nodup_iff.mpr hnd, by rw [hperm.length_eq]; exact hcnt, fun x hx => hfr x (hperm.mem_iff.mp hx), ?_,
-          ?_, ?_, hdone, hex, ?_, hN, hps, ?_⟩
+          ?_, ?_, hdone, hex, ?_, hP, hqc⟩
         · simp only [seqRest, hp] at hseq
           simpa [seqRest, vfile, pendP, hp] using hseq
         · simpa [isClosing, hp] using hcl
         · intro ha; simp [hact] at ha
         · intro m' t' h; cases h
-        · intro n h; exact hpa n (by simpa [afterOf, hp] using h)
     · cases h
   · -- closeWait a
     rename_i a hp
@@ -519,22 +529,19 @@ theorem inv_stepP {R : List σ} {s s' : St M σ} (inv : Inv proc init R s) (h : 
       · exact hd
       · simp only [seqRest, hp] at hseq
         simpa [vfile, pendP, pendC, hp, hc, hq] using hseq
-      · exact hN
-      · exact hps
-      · intro n h; exact hpa n (by simp [afterOf, hp, h])
+      · exact hP
     · cases h
   · cases h
 
 
 
 
-/-- all buffer sizes a script configures are ≥ 1 -/
-def PosScript (script : List (Cmd M)) : Prop := ∀ n, Cmd.reset n ∈ script → 1 ≤ n
-
-theorem inv_reachable {N : Nat} {script : List (Cmd M)} (hN : 1 ≤ N) (hs : PosScript script) {s : St M σ}
+/-- the invariant holds in every reachable state: every initial buffer size (0 included), every script (every `Reset` size,
+0 included), every interleaving -/
+theorem inv_reachable {N : Nat} {script : List (Cmd M)} {s : St M σ}
     (hr : Reachable proc init N script s) : Inv proc init (seqRun proc init true init script) s := by
   induction hr with
-  | init => exact inv_init proc init N script hN hs
+  | init => exact inv_init proc init N script
   | step _ hstep ih =>
     rcases hstep with h | h
     · exact inv_stepP proc init ih h
@@ -543,14 +550,15 @@ theorem inv_reachable {N : Nat} {script : List (Cmd M)} (hN : 1 ≤ N) (hs : Pos
 /-- deadlock freedom: in a state satisfying the invariant, if the producer has not finished, somebody can move -/
 theorem progress {R : List σ} {s : St M σ} (inv : Inv proc init R s) (hfin : isFin s.p = false) :
     (stepP init s).isSome = true ∨ (stepC proc s).isSome = true := by
-  obtain ⟨hnd, hcnt, hfr, hseq, hcl, hina, hdone, hex, hsm, hN, hps, hpa⟩ := inv
-  have hlen : s.pool.length + s.queue.length + (holdP s.p).length + (holdC s.c).length = s.N := by
+  obtain ⟨hnd, hcnt, hfr, hseq, hcl, hina, hdone, hex, hsm, hP, hqc⟩ := inv
+  have hlen : s.pool.length + s.queue.length + (holdP s.p).length + (holdC s.c).length = s.P := by
     simpa [tokens, Nat.add_assoc] using hcnt
+  have hP1 : 1 ≤ s.P := by rw [hP]; unfold poolSize; omega
   cases hc : s.c with
   | proc t => right; simp [stepC, hc]
   | ret t =>
     right
-    have : s.pool.length < s.N := by simp [hc, holdC] at hlen; omega
+    have : s.pool.length < s.P := by simp [hc, holdC] at hlen; omega
     simp [stepC, hc, this]
   | recv =>
     cases hq : s.queue with
@@ -568,13 +576,17 @@ theorem progress {R : List σ} {s : St M σ} (inv : Inv proc init R s) (hfin : i
           | nil => simp [stepP, hp, hs]
           | cons c cs => cases c <;> simp [stepP, hp, hs]
         | onTake m =>
-          have : s.pool.length = s.N := by simp [hc, hp, hq, holdP, holdC] at hlen; omega
+          have : s.pool.length = s.P := by simp [hc, hp, hq, holdP, holdC] at hlen; omega
           cases hpool : s.pool with
           | nil => rw [hpool] at this; simp at this; omega
           | cons t pool' => simp [stepP, hp, hpool]
         | onSend m t =>
-          have : s.queue.length < s.N := by rw [hq]; simp; omega
-          simp [stepP, hp, this]
+          -- the worker is waiting in `range l.mesgc`: a buffered channel has room (it is empty), an unbuffered one
+          -- has its receiver ready
+          by_cases hN0 : s.N = 0
+          · simp [stepP, hp, hq, hN0, hc]
+          · have : s.queue.length < s.N := by rw [hq]; simp; omega
+            simp [stepP, hp, this]
         | closing k a => simp [hp, isClosing] at hnc
         | closingPut k t a => simp [hp, isClosing] at hnc
         | closeWait a => simp [hp, isClosing] at hnc
@@ -598,12 +610,12 @@ theorem progress {R : List σ} {s : St M σ} (inv : Inv proc init R s) (hfin : i
       · simp [hp, isClosing] at h
       · have := (hina h).1; simp [hp, isIdleFin] at this
     | closing k a =>
-      have : s.pool.length = s.N := by simp [hc, hp, hq, holdP, holdC] at hlen; omega
+      have : s.pool.length = s.P := by simp [hc, hp, hq, holdP, holdC] at hlen; omega
       cases hpool : s.pool with
       | nil => rw [hpool] at this; simp at this; omega
       | cons t pool' => simp [stepP, hp, hpool]
     | closingPut k t a =>
-      have : s.pool.length < s.N := by simp [hc, hp, hq, holdP, holdC] at hlen; omega
+      have : s.pool.length < s.P := by simp [hc, hp, hq, holdP, holdC] at hlen; omega
       simp [stepP, hp, this]
     | closeWait a => simp [stepP, hp, hd]
     | fin => simp [hp, isFin] at hfin
@@ -617,7 +629,7 @@ theorem final_results {R : List σ} {s : St M σ} (inv : Inv proc init R s) (hfi
 /-- a listener that is not active (after `File`/`Close`) has its worker gone, an empty queue and ALL its slices back in
 the pool; the `OnMesg` that re-activates it starts from an empty file cell -/
 theorem no_carry_over {R : List σ} {s : St M σ} (inv : Inv proc init R s) (ha : s.active = false) :
-    s.c = .exited ∧ s.queue = [] ∧ s.pool.length = s.N ∧ s.pool.Nodup ∧
+    s.c = .exited ∧ s.queue = [] ∧ s.pool.length = s.P ∧ s.pool.Nodup ∧
     ∀ m cs s', s.script = .onMesg m :: cs → stepP init s = some s' → s'.file = init ∧ s'.queue = [] ∧ s'.pool = s.pool := by
   obtain ⟨hidle, hc⟩ := inv.inactive ha
   obtain ⟨_, hq⟩ := inv.exited hc
@@ -684,20 +696,33 @@ theorem reachable_runSched {N : Nat} {script : List (Cmd M)} (l : List Bool) :
       | none => rw [h1] at e; simp at e
       | some s1 => rw [h1] at e; exact ih s1 s' (Reachable.step h (Or.inr h1)) e
 
-/-- **Buffer size 0 deadlocks** (known finding KF-C14-1): with `WithChannelBuffer(0)` the state right after the first
-`OnMesg` has entered is reachable and nobody can ever move again: the producer waits on the empty pool, the worker on the
-empty queue. -/
-theorem buffer0_deadlock (m : M) (cs : List (Cmd M)) :
-    ∃ s : St M σ, Reachable proc init 0 (.onMesg m :: cs) s ∧ Deadlocked proc init s := by
-  refine ⟨_, reachable_runSched proc init [true] _ _ Reachable.init rfl, ?_⟩
-  simp [Deadlocked, isFin, stepP, stepC, initSt]
+/-- with an unbuffered message channel (buffer size 0) nothing is ever queued: every message goes from `OnMesg` straight into
+the worker's hands -/
+theorem unbuffered_queue_empty {R : List σ} {s : St M σ} (inv : Inv proc init R s) (h0 : s.N = 0) : s.queue = [] := by
+  have := inv.qcap
+  rw [h0] at this
+  exact List.eq_nil_of_length_eq_zero (by omega)
 
-/-- the same after `Reset(WithChannelBuffer(0))` of a listener that worked with buffer size 1 -/
-theorem buffer0_after_reset_deadlock (m : M) (cs : List (Cmd M)) :
-    ∃ s : St M σ, Reachable proc init 1 (.reset 0 :: .onMesg m :: cs) s ∧ Deadlocked proc init s := by
-  refine ⟨_, reachable_runSched proc init [true, false, true, true, true, true] _ _ Reachable.init rfl, ?_⟩
-  simp [Deadlocked, isFin, stepP, stepC, initSt, startClose, finishClose, resize, respawn]
+/-- **Buffer size 0 works** (the former witness of known finding KF-C14-1): `NewListener(WithChannelBuffer(0))`, one
+message, `File()` — a run exists in which the producer finishes (the schedule below: OnMesg enters, takes the one pooled
+slice, hands it over; the worker processes and returns it; File closes, cycles the slice, the worker exits, File returns),
+and it yields the file of the message. -/
+theorem buffer0_completes (m : M) :
+    ∃ s : St M σ, Reachable proc init 0 [.onMesg m, .file] s ∧ isFin s.p = true ∧ s.results = [proc init m] := by
+  refine ⟨_, reachable_runSched proc init [true, true, true, false, false, true, true, true, false, true, true] _ _ Reachable.init rfl, rfl, rfl⟩
 
+/-- the same after `Reset(WithChannelBuffer(0))` of a listener that worked with buffer size 2 (the pool shrinks to one slice),
+and back: `Reset(WithChannelBuffer(2))` afterwards grows it again -/
+theorem buffer0_after_reset_completes (m m' : M) :
+    ∃ s : St M σ, Reachable proc init 2 [.reset 0, .onMesg m, .file, .reset 2, .onMesg m', .file] s ∧ isFin s.p = true ∧
+      s.results = [proc init m, proc init m'] ∧ s.P = 2 ∧ s.pool.length = 2 := by
+  refine ⟨_, reachable_runSched proc init
+    [true, true, true, true, true, false, true,          -- Reset(0): close, cycle both slices, worker exits, new pool of 1
+     true, true, true, false, false,                      -- OnMesg m (rendezvous), worker processes and returns the slice
+     true, true, true, false, true,                       -- File
+     true,                                                -- Reset(2): inactive, so straight to the new pool of 2
+     true, true, true, false, false, false,               -- OnMesg m' (queued), worker receives, processes, returns
+     true, true, true, true, true, false, true, true] _ _ Reachable.init rfl, rfl, rfl, rfl, rfl⟩
 
 theorem seqRun_onMesgs (msgs : List M) (rest : List (Cmd M)) (f : σ) :
     seqRun proc init true f (msgs.map .onMesg ++ rest) = seqRun proc init true (msgs.foldl proc f) rest := by
